@@ -1815,7 +1815,8 @@ func aggregateTraversalFinalProjection(queryPart *cypher.SinglePartQuery, source
 			sourceSeen = true
 			finalProjection.SourceAlias = alias
 		case countAlias:
-			if countSeen {
+			if countSeen || !sourceSeen {
+				// The lowered statement always returns the source column first: RETURN c, n keeps the general translation
 				return aggregateTraversalFinalProjectionShape{}, false
 			}
 			countSeen = true
